@@ -1,5 +1,8 @@
-# vprops.py - per-property stage table for vcheck
-# stage: driver (harness/drivers/<driver>.c), cfg (asan|tsan|plain), optional link flags / env.
+# vprops.py - per-property stage table for vcheck, loaded from /verif/props/Cxx.json
+# stage: driver (harness/drivers/<driver>.c), cfg (asan|tsan|plain), optional link flags / env / thorough_only.
+import glob, json, os
+
+_HERE = os.path.dirname(os.path.dirname(os.path.abspath(__file__)))
 
 COMMON_ASSUME = [
     'LAPACK/BLAS (OpenBLAS, single-threaded) and SQLite are uninstrumented trusted code',
@@ -7,16 +10,9 @@ COMMON_ASSUME = [
     'held-on-explored only: inputs outside the generator domains stated in DESIGN.md are not judged',
 ]
 
-PROPS = {
-    'C01': {
-        'stages': [{'driver': 'c01', 'cfg': 'asan'}, {'driver': 'c01', 'cfg': 'tsan'}],
-        'rule': 'case = random matrix (2..60 x 1..25, tall/square/wide, constant columns, offsets to 1e3, spreads 0.1..1e3), '
-                'scaling -1..5, npc 1..rank, alternative processor count via H1; class = (rows bucket, cols bucket, scaling, shape, '
-                'npc=rank?, processor count) of cases whose model was fitted and judged; skipped cases are not counted',
-        'assumptions': COMMON_ASSUME,
-        'technique': 'reference-model monitor (long-double identity replay of the fitted model) + ASan/UBSan/TSan over seeded random workloads, processor-count hook',
-        'level_text': 'Seeded exploration: thousands (quick) to 150k (thorough) random matrices over all scaling options, shapes, component counts and '
-                      'processor counts; every fitted model is replayed against an independent long-double oracle and every execution runs under '
-                      'ASan+UBSan (plus a TSan sweep of the multithreaded kernels inside PCA). Decides the property on the executions explored only.',
-    },
-}
+PROPS = {}
+for _f in sorted(glob.glob(os.path.join(_HERE, 'props', 'C*.json'))):
+    _p = json.load(open(_f))
+    _p.setdefault('assumptions', [])
+    _p['assumptions'] = COMMON_ASSUME + _p['assumptions']
+    PROPS[os.path.basename(_f)[:-5]] = _p
